@@ -272,8 +272,22 @@ func freshElapsedChannel(r *Run, rule string) {
 						if !isSt {
 							return
 						}
-						if _, isMk := st.Val.(*ssa.MakeChan); isMk && a.sh.Of(st.Addr).String() == el.String() && in.Parent() == s.Instr.Parent() && Dominates(in, s.Instr) {
+						if in.Parent() != s.Instr.Parent() || !Dominates(in, s.Instr) {
+							return
+						}
+						addr := a.sh.Of(st.Addr).String()
+						if _, isMk := st.Val.(*ssa.MakeChan); isMk && addr == el.String() {
 							ok = true
+						}
+						// the channel is a field of a grouping struct assigned wholesale
+						if strings.HasPrefix(el.String(), addr+".") {
+							if v := a.sh.Of(st.Val); v.K == "lit" {
+								for i, f := range v.F {
+									if addr+"."+f == el.String() && v.A[i].K == "make" {
+										ok = true
+									}
+								}
+							}
 						}
 					})
 				}
